@@ -303,9 +303,10 @@ func (m *Machine) lockReadHeld(p *PtrV) *Term {
 }
 
 type lockWatch struct {
-	objs map[*Object]bool
-	lock *PtrV
-	n    int
+	objs     map[*Object]bool
+	lock     *PtrV
+	n        int
+	acquired *Term // the watched mutex has been acquired (read or write) during the operation
 }
 
 func (lw *lockWatch) access(m *Machine, p *PtrV, g *Term, site ssa.Instruction, store bool) {
@@ -325,7 +326,26 @@ func (lw *lockWatch) access(m *Machine, p *PtrV, g *Term, site ssa.Instruction, 
 	}
 }
 
-func (lw *lockWatch) lockEvent(m *Machine, key string, acq, read bool, g *Term) {}
+// lockEvent: an operation must be ONE critical section of the watched mutex; taking it a
+// second time (after having released it) splits check and act and loses atomicity.
+func (lw *lockWatch) lockEvent(m *Machine, key string, acq, read bool, g *Term) {
+	if !acq {
+		return
+	}
+	for _, a := range lw.lock.Alts {
+		if key != fmt.Sprintf("lock#%d%v", a.Obj.id, a.Path) {
+			continue
+		}
+		if lw.acquired == nil {
+			lw.acquired = TS.False
+		}
+		bad := And(g, a.G, lw.acquired)
+		if !bad.IsFalse() {
+			m.pendingNP = append(m.pendingNP, npRec{bad, "assert", "the operation is a single critical section (mutex not released and taken again)", ""})
+		}
+		lw.acquired = Or(lw.acquired, And(g, a.G))
+	}
+}
 
 // ---------- go-funk ----------
 
